@@ -89,6 +89,19 @@ def run(eng, rep, tier):
     ob.decide("R1", "C16.2", fc, "concat-bridge", okb, "FINAL(left) -epsilon / no output-> START(right)",
               "concatenate does not bridge the final states of the left operand to the start states of the right one "
               "with a silent epsilon move", sc, site=site_of(prog, fc, fc.node))
+    for ev in bridge:
+        from .flow import _path_to
+        loops = [a for a in _path_to(fc.node, ev.node) if isinstance(a, ast.For)]
+        zipped = [l for l in loops if isinstance(l.iter, ast.Call) and getattr(l.iter.func, "id", "") == "zip"]
+        prod = [l for l in loops if isinstance(l.iter, ast.Call) and ast.unparse(l.iter.func).endswith("product")]
+        if zipped:
+            rep.violation("R1", "C16.2", fc.qname, "concat-bridge-every-pair",
+                          "the bridges are built over zip(final states, start states): only pairwise bridges exist, not one "
+                          "for every (final state of the left, start state of the right)", site=site_of(prog, fc, zipped[0]))
+        elif len(loops) >= 2 or prod:
+            rep.holds("R1", "C16.2", fc.qname, "concat-bridge-every-pair", "one bridge per (final, start) pair (nested loops)")
+        else:
+            rep.error("R1", "C16.2", fc.qname, "concat-bridge-every-pair", "the bridge loop is of a shape the rule cannot follow")
     alle = [ev for ev, _ in calls(sc, "add_transition", recv_locs=res)]
     ob.decide("R1", "C16.2", fc, "concat-edges-of-both",
               any(tag(SELF, DE) in arg_deps(ev, 3) | arg_deps(ev, 2) for ev in alle) and
